@@ -10,70 +10,70 @@ Theorem C02_t_mul : forall a b : nat -> R,
   (t_mul_1 a b = flat_t 1%nat (spec_t_mul 1%nat (full_t 1%nat a) (full_t 1%nat b))) /\
   (t_mul_2 a b = flat_t 2%nat (spec_t_mul 2%nat (full_t 2%nat a) (full_t 2%nat b))) /\
   (t_mul_3 a b = flat_t 3%nat (spec_t_mul 3%nat (full_t 3%nat a) (full_t 3%nat b))).
-Proof. intros; exact (conj (t_mul_1_ok a b) (conj (t_mul_2_ok a b) (t_mul_3_ok a b))). Qed.
+Proof. intros a b; exact (conj (t_mul_1_ok a b) (conj (t_mul_2_ok a b) (t_mul_3_ok a b))). Qed.
 Print Assumptions C02_t_mul.
 
 Theorem C02_t_expr : forall a b c : nat -> R,
   (t_expr_1 a b c = flat_t 1%nat (spec_t_expr 1%nat (full_t 1%nat a) (full_t 1%nat b) (full_x 1%nat c))) /\
   (t_expr_2 a b c = flat_t 2%nat (spec_t_expr 2%nat (full_t 2%nat a) (full_t 2%nat b) (full_x 2%nat c))) /\
   (t_expr_3 a b c = flat_t 3%nat (spec_t_expr 3%nat (full_t 3%nat a) (full_t 3%nat b) (full_x 3%nat c))).
-Proof. intros; exact (conj (t_expr_1_ok a b c) (conj (t_expr_2_ok a b c) (t_expr_3_ok a b c))). Qed.
+Proof. intros a b c; exact (conj (t_expr_1_ok a b c) (conj (t_expr_2_ok a b c) (t_expr_3_ok a b c))). Qed.
 Print Assumptions C02_t_expr.
 
 Theorem C02_t_transpose : forall a : nat -> R,
   (t_transpose_1 a = flat_t 1%nat (spec_t_transpose 1%nat (full_t 1%nat a))) /\
   (t_transpose_2 a = flat_t 2%nat (spec_t_transpose 2%nat (full_t 2%nat a))) /\
   (t_transpose_3 a = flat_t 3%nat (spec_t_transpose 3%nat (full_t 3%nat a))).
-Proof. intros; exact (conj (t_transpose_1_ok a) (conj (t_transpose_2_ok a) (t_transpose_3_ok a))). Qed.
+Proof. intros a; exact (conj (t_transpose_1_ok a) (conj (t_transpose_2_ok a) (t_transpose_3_ok a))). Qed.
 Print Assumptions C02_t_transpose.
 
 Theorem C02_t_trace : forall a : nat -> R,
   (t_trace_1 a = flat_x 1%nat (spec_t_trace 1%nat (full_t 1%nat a))) /\
   (t_trace_2 a = flat_x 2%nat (spec_t_trace 2%nat (full_t 2%nat a))) /\
   (t_trace_3 a = flat_x 3%nat (spec_t_trace 3%nat (full_t 3%nat a))).
-Proof. intros; exact (conj (t_trace_1_ok a) (conj (t_trace_2_ok a) (t_trace_3_ok a))). Qed.
+Proof. intros a; exact (conj (t_trace_1_ok a) (conj (t_trace_2_ok a) (t_trace_3_ok a))). Qed.
 Print Assumptions C02_t_trace.
 
 Theorem C02_t_det : forall a : nat -> R,
   (t_det_1 a = flat_x 1%nat (spec_t_det 1%nat (full_t 1%nat a))) /\
   (t_det_2 a = flat_x 2%nat (spec_t_det 2%nat (full_t 2%nat a))) /\
   (t_det_3 a = flat_x 3%nat (spec_t_det 3%nat (full_t 3%nat a))).
-Proof. intros; exact (conj (t_det_1_ok a) (conj (t_det_2_ok a) (t_det_3_ok a))). Qed.
+Proof. intros a; exact (conj (t_det_1_ok a) (conj (t_det_2_ok a) (t_det_3_ok a))). Qed.
 Print Assumptions C02_t_det.
 
 Theorem C02_t_invert : forall a : nat -> R,
   (det2 (full_t 1%nat a) <> 0 -> t_invert_1 a = flat_t 1%nat (spec_t_invert 1%nat (full_t 1%nat a))) /\
   (det2 (full_t 2%nat a) <> 0 -> t_invert_2 a = flat_t 2%nat (spec_t_invert 2%nat (full_t 2%nat a))) /\
   (det2 (full_t 3%nat a) <> 0 -> t_invert_3 a = flat_t 3%nat (spec_t_invert 3%nat (full_t 3%nat a))).
-Proof. intros; exact (conj (t_invert_1_ok a) (conj (t_invert_2_ok a) (t_invert_3_ok a))). Qed.
+Proof. intros a; exact (conj (t_invert_1_ok a) (conj (t_invert_2_ok a) (t_invert_3_ok a))). Qed.
 Print Assumptions C02_t_invert.
 
 Theorem C02_t_ddet : forall a : nat -> R,
   (t_ddet_1 a = flat_t 1%nat (spec_t_ddet 1%nat (full_t 1%nat a))) /\
   (t_ddet_2 a = flat_t 2%nat (spec_t_ddet 2%nat (full_t 2%nat a))) /\
   (t_ddet_3 a = flat_t 3%nat (spec_t_ddet 3%nat (full_t 3%nat a))).
-Proof. intros; exact (conj (t_ddet_1_ok a) (conj (t_ddet_2_ok a) (t_ddet_3_ok a))). Qed.
+Proof. intros a; exact (conj (t_ddet_1_ok a) (conj (t_ddet_2_ok a) (t_ddet_3_ok a))). Qed.
 Print Assumptions C02_t_ddet.
 
 Theorem C02_t_change_basis : forall a b : nat -> R,
   (t_change_basis_1 a b = flat_t 1%nat (spec_t_change_basis 1%nat (full_t 1%nat a) (full_r 1%nat b))) /\
   (t_change_basis_2 a b = flat_t 2%nat (spec_t_change_basis 2%nat (full_t 2%nat a) (full_r 2%nat b))) /\
   (t_change_basis_3 a b = flat_t 3%nat (spec_t_change_basis 3%nat (full_t 3%nat a) (full_r 3%nat b))).
-Proof. intros; exact (conj (t_change_basis_1_ok a b) (conj (t_change_basis_2_ok a b) (t_change_basis_3_ok a b))). Qed.
+Proof. intros a b; exact (conj (t_change_basis_1_ok a b) (conj (t_change_basis_2_ok a b) (t_change_basis_3_ok a b))). Qed.
 Print Assumptions C02_t_change_basis.
 
 Theorem C02_t_syme : forall a : nat -> R,
   (t_syme_1 a = flat_s 1%nat (spec_t_syme 1%nat (full_t 1%nat a))) /\
   (t_syme_2 a = flat_s 2%nat (spec_t_syme 2%nat (full_t 2%nat a))) /\
   (t_syme_3 a = flat_s 3%nat (spec_t_syme 3%nat (full_t 3%nat a))).
-Proof. intros; exact (conj (t_syme_1_ok a) (conj (t_syme_2_ok a) (t_syme_3_ok a))). Qed.
+Proof. intros a; exact (conj (t_syme_1_ok a) (conj (t_syme_2_ok a) (t_syme_3_ok a))). Qed.
 Print Assumptions C02_t_syme.
 
 Theorem C02_t_unsyme : forall a : nat -> R,
   (t_unsyme_1 a = flat_t 1%nat (spec_t_unsyme 1%nat (full_s 1%nat a))) /\
   (t_unsyme_2 a = flat_t 2%nat (spec_t_unsyme 2%nat (full_s 2%nat a))) /\
   (t_unsyme_3 a = flat_t 3%nat (spec_t_unsyme 3%nat (full_s 3%nat a))).
-Proof. intros; exact (conj (t_unsyme_1_ok a) (conj (t_unsyme_2_ok a) (t_unsyme_3_ok a))). Qed.
+Proof. intros a; exact (conj (t_unsyme_1_ok a) (conj (t_unsyme_2_ok a) (t_unsyme_3_ok a))). Qed.
 Print Assumptions C02_t_unsyme.
 
 Theorem C02_t_Id : (t_Id_1 = flat_t 1%nat (spec_t_Id 1%nat)) /\
@@ -86,104 +86,104 @@ Theorem C02_t_rcg : forall a : nat -> R,
   (t_rcg_1 a = flat_s 1%nat (spec_t_rcg 1%nat (full_t 1%nat a))) /\
   (t_rcg_2 a = flat_s 2%nat (spec_t_rcg 2%nat (full_t 2%nat a))) /\
   (t_rcg_3 a = flat_s 3%nat (spec_t_rcg 3%nat (full_t 3%nat a))).
-Proof. intros; exact (conj (t_rcg_1_ok a) (conj (t_rcg_2_ok a) (t_rcg_3_ok a))). Qed.
+Proof. intros a; exact (conj (t_rcg_1_ok a) (conj (t_rcg_2_ok a) (t_rcg_3_ok a))). Qed.
 Print Assumptions C02_t_rcg.
 
 Theorem C02_t_lcg : forall a : nat -> R,
   (t_lcg_1 a = flat_s 1%nat (spec_t_lcg 1%nat (full_t 1%nat a))) /\
   (t_lcg_2 a = flat_s 2%nat (spec_t_lcg 2%nat (full_t 2%nat a))) /\
   (t_lcg_3 a = flat_s 3%nat (spec_t_lcg 3%nat (full_t 3%nat a))).
-Proof. intros; exact (conj (t_lcg_1_ok a) (conj (t_lcg_2_ok a) (t_lcg_3_ok a))). Qed.
+Proof. intros a; exact (conj (t_lcg_1_ok a) (conj (t_lcg_2_ok a) (t_lcg_3_ok a))). Qed.
 Print Assumptions C02_t_lcg.
 
 Theorem C02_t_gl : forall a : nat -> R,
   (t_gl_1 a = flat_s 1%nat (spec_t_gl 1%nat (full_t 1%nat a))) /\
   (t_gl_2 a = flat_s 2%nat (spec_t_gl 2%nat (full_t 2%nat a))) /\
   (t_gl_3 a = flat_s 3%nat (spec_t_gl 3%nat (full_t 3%nat a))).
-Proof. intros; exact (conj (t_gl_1_ok a) (conj (t_gl_2_ok a) (t_gl_3_ok a))). Qed.
+Proof. intros a; exact (conj (t_gl_1_ok a) (conj (t_gl_2_ok a) (t_gl_3_ok a))). Qed.
 Print Assumptions C02_t_gl.
 
 Theorem C02_s_push_forward : forall a b : nat -> R,
   (s_push_forward_1 a b = flat_s 1%nat (spec_s_push_forward 1%nat (full_s 1%nat a) (full_t 1%nat b))) /\
   (s_push_forward_2 a b = flat_s 2%nat (spec_s_push_forward 2%nat (full_s 2%nat a) (full_t 2%nat b))) /\
   (s_push_forward_3 a b = flat_s 3%nat (spec_s_push_forward 3%nat (full_s 3%nat a) (full_t 3%nat b))).
-Proof. intros; exact (conj (s_push_forward_1_ok a b) (conj (s_push_forward_2_ok a b) (s_push_forward_3_ok a b))). Qed.
+Proof. intros a b; exact (conj (s_push_forward_1_ok a b) (conj (s_push_forward_2_ok a b) (s_push_forward_3_ok a b))). Qed.
 Print Assumptions C02_s_push_forward.
 
 Theorem C02_t_matrix_view : forall a : nat -> R,
   (t_matrix_view_1 a = flat_r 1%nat (spec_t_matrix_view 1%nat (full_t 1%nat a))) /\
   (t_matrix_view_2 a = flat_r 2%nat (spec_t_matrix_view 2%nat (full_t 2%nat a))) /\
   (t_matrix_view_3 a = flat_r 3%nat (spec_t_matrix_view 3%nat (full_t 3%nat a))).
-Proof. intros; exact (conj (t_matrix_view_1_ok a) (conj (t_matrix_view_2_ok a) (t_matrix_view_3_ok a))). Qed.
+Proof. intros a; exact (conj (t_matrix_view_1_ok a) (conj (t_matrix_view_2_ok a) (t_matrix_view_3_ok a))). Qed.
 Print Assumptions C02_t_matrix_view.
 
 Theorem C02_t_dot : forall a b : nat -> R,
   (t_dot_1 a b = flat_x 1%nat (spec_t_dot 1%nat (full_t 1%nat a) (full_t 1%nat b))) /\
   (t_dot_2 a b = flat_x 2%nat (spec_t_dot 2%nat (full_t 2%nat a) (full_t 2%nat b))) /\
   (t_dot_3 a b = flat_x 3%nat (spec_t_dot 3%nat (full_t 3%nat a) (full_t 3%nat b))).
-Proof. intros; exact (conj (t_dot_1_ok a b) (conj (t_dot_2_ok a b) (t_dot_3_ok a b))). Qed.
+Proof. intros a b; exact (conj (t_dot_1_ok a b) (conj (t_dot_2_ok a b) (t_dot_3_ok a b))). Qed.
 Print Assumptions C02_t_dot.
 
 Theorem C02_A_mul : forall a b : nat -> R,
   (A_mul_1 a b = flat_A 1%nat (spec_A_mul 1%nat (full_A 1%nat a) (full_A 1%nat b))) /\
   (A_mul_2 a b = flat_A 2%nat (spec_A_mul 2%nat (full_A 2%nat a) (full_A 2%nat b))) /\
   (A_mul_3 a b = flat_A 3%nat (spec_A_mul 3%nat (full_A 3%nat a) (full_A 3%nat b))).
-Proof. intros; exact (conj (A_mul_1_ok a b) (conj (A_mul_2_ok a b) (A_mul_3_ok a b))). Qed.
+Proof. intros a b; exact (conj (A_mul_1_ok a b) (conj (A_mul_2_ok a b) (A_mul_3_ok a b))). Qed.
 Print Assumptions C02_A_mul.
 
 Theorem C02_A_expr : forall a b c : nat -> R,
   (A_expr_1 a b c = flat_A 1%nat (spec_A_expr 1%nat (full_A 1%nat a) (full_A 1%nat b) (full_x 1%nat c))) /\
   (A_expr_2 a b c = flat_A 2%nat (spec_A_expr 2%nat (full_A 2%nat a) (full_A 2%nat b) (full_x 2%nat c))) /\
   (A_expr_3 a b c = flat_A 3%nat (spec_A_expr 3%nat (full_A 3%nat a) (full_A 3%nat b) (full_x 3%nat c))).
-Proof. intros; exact (conj (A_expr_1_ok a b c) (conj (A_expr_2_ok a b c) (A_expr_3_ok a b c))). Qed.
+Proof. intros a b c; exact (conj (A_expr_1_ok a b c) (conj (A_expr_2_ok a b c) (A_expr_3_ok a b c))). Qed.
 Print Assumptions C02_A_expr.
 
 Theorem C02_A_apply : forall a b : nat -> R,
   (A_apply_1 a b = flat_s 1%nat (spec_A_apply 1%nat (full_A 1%nat a) (full_s 1%nat b))) /\
   (A_apply_2 a b = flat_s 2%nat (spec_A_apply 2%nat (full_A 2%nat a) (full_s 2%nat b))) /\
   (A_apply_3 a b = flat_s 3%nat (spec_A_apply 3%nat (full_A 3%nat a) (full_s 3%nat b))).
-Proof. intros; exact (conj (A_apply_1_ok a b) (conj (A_apply_2_ok a b) (A_apply_3_ok a b))). Qed.
+Proof. intros a b; exact (conj (A_apply_1_ok a b) (conj (A_apply_2_ok a b) (A_apply_3_ok a b))). Qed.
 Print Assumptions C02_A_apply.
 
 Theorem C02_A_lapply : forall a b : nat -> R,
   (A_lapply_1 a b = flat_s 1%nat (spec_A_lapply 1%nat (full_s 1%nat a) (full_A 1%nat b))) /\
   (A_lapply_2 a b = flat_s 2%nat (spec_A_lapply 2%nat (full_s 2%nat a) (full_A 2%nat b))) /\
   (A_lapply_3 a b = flat_s 3%nat (spec_A_lapply 3%nat (full_s 3%nat a) (full_A 3%nat b))).
-Proof. intros; exact (conj (A_lapply_1_ok a b) (conj (A_lapply_2_ok a b) (A_lapply_3_ok a b))). Qed.
+Proof. intros a b; exact (conj (A_lapply_1_ok a b) (conj (A_lapply_2_ok a b) (A_lapply_3_ok a b))). Qed.
 Print Assumptions C02_A_lapply.
 
 Theorem C02_s_otimes : forall a b : nat -> R,
   (s_otimes_1 a b = flat_A 1%nat (spec_s_otimes 1%nat (full_s 1%nat a) (full_s 1%nat b))) /\
   (s_otimes_2 a b = flat_A 2%nat (spec_s_otimes 2%nat (full_s 2%nat a) (full_s 2%nat b))) /\
   (s_otimes_3 a b = flat_A 3%nat (spec_s_otimes 3%nat (full_s 3%nat a) (full_s 3%nat b))).
-Proof. intros; exact (conj (s_otimes_1_ok a b) (conj (s_otimes_2_ok a b) (s_otimes_3_ok a b))). Qed.
+Proof. intros a b; exact (conj (s_otimes_1_ok a b) (conj (s_otimes_2_ok a b) (s_otimes_3_ok a b))). Qed.
 Print Assumptions C02_s_otimes.
 
 Theorem C02_A_transpose : forall a : nat -> R,
   (A_transpose_1 a = flat_A 1%nat (spec_A_transpose 1%nat (full_A 1%nat a))) /\
   (A_transpose_2 a = flat_A 2%nat (spec_A_transpose 2%nat (full_A 2%nat a))) /\
   (A_transpose_3 a = flat_A 3%nat (spec_A_transpose 3%nat (full_A 3%nat a))).
-Proof. intros; exact (conj (A_transpose_1_ok a) (conj (A_transpose_2_ok a) (A_transpose_3_ok a))). Qed.
+Proof. intros a; exact (conj (A_transpose_1_ok a) (conj (A_transpose_2_ok a) (A_transpose_3_ok a))). Qed.
 Print Assumptions C02_A_transpose.
 
 Theorem C02_A_change_basis : forall a b : nat -> R,
   (A_change_basis_1 a b = flat_A 1%nat (spec_A_change_basis 1%nat (full_A 1%nat a) (full_r 1%nat b))) /\
   (A_change_basis_2 a b = flat_A 2%nat (spec_A_change_basis 2%nat (full_A 2%nat a) (full_r 2%nat b))).
-Proof. intros; exact (conj (A_change_basis_1_ok a b) (A_change_basis_2_ok a b)). Qed.
+Proof. intros a b; exact (conj (A_change_basis_1_ok a b) (A_change_basis_2_ok a b)). Qed.
 Print Assumptions C02_A_change_basis.
 
 Theorem C02_A_push_forward : forall a b : nat -> R,
   (A_push_forward_1 a b = flat_A 1%nat (spec_A_push_forward 1%nat (full_A 1%nat a) (full_t 1%nat b))) /\
   (A_push_forward_2 a b = flat_A 2%nat (spec_A_push_forward 2%nat (full_A 2%nat a) (full_t 2%nat b))) /\
   (A_push_forward_3 a b = flat_A 3%nat (spec_A_push_forward 3%nat (full_A 3%nat a) (full_t 3%nat b))).
-Proof. intros; exact (conj (A_push_forward_1_ok a b) (conj (A_push_forward_2_ok a b) (A_push_forward_3_ok a b))). Qed.
+Proof. intros a b; exact (conj (A_push_forward_1_ok a b) (conj (A_push_forward_2_ok a b) (A_push_forward_3_ok a b))). Qed.
 Print Assumptions C02_A_push_forward.
 
 Theorem C02_A_fromRotationMatrix : forall a : nat -> R,
   (A_fromRotationMatrix_1 a = flat_A 1%nat (spec_A_fromRotationMatrix 1%nat (full_r 1%nat a))) /\
   (A_fromRotationMatrix_2 a = flat_A 2%nat (spec_A_fromRotationMatrix 2%nat (full_r 2%nat a))) /\
   (A_fromRotationMatrix_3 a = flat_A 3%nat (spec_A_fromRotationMatrix 3%nat (full_r 3%nat a))).
-Proof. intros; exact (conj (A_fromRotationMatrix_1_ok a) (conj (A_fromRotationMatrix_2_ok a) (A_fromRotationMatrix_3_ok a))). Qed.
+Proof. intros a; exact (conj (A_fromRotationMatrix_1_ok a) (conj (A_fromRotationMatrix_2_ok a) (A_fromRotationMatrix_3_ok a))). Qed.
 Print Assumptions C02_A_fromRotationMatrix.
 
 Theorem C02_A_Id : (A_Id_1 = flat_A 1%nat (spec_A_Id 1%nat)) /\
@@ -220,62 +220,62 @@ Theorem C02_A_getComponent : forall a : nat -> R,
   (A_getComponent_1 a = flat_A 1%nat (spec_A_getComponent 1%nat (full_A 1%nat a))) /\
   (A_getComponent_2 a = flat_A 2%nat (spec_A_getComponent 2%nat (full_A 2%nat a))) /\
   (A_getComponent_3 a = flat_A 3%nat (spec_A_getComponent 3%nat (full_A 3%nat a))).
-Proof. intros; exact (conj (A_getComponent_1_ok a) (conj (A_getComponent_2_ok a) (A_getComponent_3_ok a))). Qed.
+Proof. intros a; exact (conj (A_getComponent_1_ok a) (conj (A_getComponent_2_ok a) (A_getComponent_3_ok a))). Qed.
 Print Assumptions C02_A_getComponent.
 
 Theorem C02_A_dsquare : forall a : nat -> R,
   (A_dsquare_1 a = flat_A 1%nat (spec_A_dsquare 1%nat (full_s 1%nat a))) /\
   (A_dsquare_2 a = flat_A 2%nat (spec_A_dsquare 2%nat (full_s 2%nat a))) /\
   (A_dsquare_3 a = flat_A 3%nat (spec_A_dsquare 3%nat (full_s 3%nat a))).
-Proof. intros; exact (conj (A_dsquare_1_ok a) (conj (A_dsquare_2_ok a) (A_dsquare_3_ok a))). Qed.
+Proof. intros a; exact (conj (A_dsquare_1_ok a) (conj (A_dsquare_2_ok a) (A_dsquare_3_ok a))). Qed.
 Print Assumptions C02_A_dsquare.
 
 Theorem C02_B_mul : forall a b : nat -> R,
   (B_mul_1 a b = flat_B 1%nat (spec_B_mul 1%nat (full_B 1%nat a) (full_B 1%nat b))) /\
   (B_mul_2 a b = flat_B 2%nat (spec_B_mul 2%nat (full_B 2%nat a) (full_B 2%nat b))) /\
   (B_mul_3 a b = flat_B 3%nat (spec_B_mul 3%nat (full_B 3%nat a) (full_B 3%nat b))).
-Proof. intros; exact (conj (B_mul_1_ok a b) (conj (B_mul_2_ok a b) (B_mul_3_ok a b))). Qed.
+Proof. intros a b; exact (conj (B_mul_1_ok a b) (conj (B_mul_2_ok a b) (B_mul_3_ok a b))). Qed.
 Print Assumptions C02_B_mul.
 
 Theorem C02_B_apply : forall a b : nat -> R,
   (B_apply_1 a b = flat_t 1%nat (spec_B_apply 1%nat (full_B 1%nat a) (full_t 1%nat b))) /\
   (B_apply_2 a b = flat_t 2%nat (spec_B_apply 2%nat (full_B 2%nat a) (full_t 2%nat b))) /\
   (B_apply_3 a b = flat_t 3%nat (spec_B_apply 3%nat (full_B 3%nat a) (full_t 3%nat b))).
-Proof. intros; exact (conj (B_apply_1_ok a b) (conj (B_apply_2_ok a b) (B_apply_3_ok a b))). Qed.
+Proof. intros a b; exact (conj (B_apply_1_ok a b) (conj (B_apply_2_ok a b) (B_apply_3_ok a b))). Qed.
 Print Assumptions C02_B_apply.
 
 Theorem C02_B_lapply : forall a b : nat -> R,
   (B_lapply_1 a b = flat_t 1%nat (spec_B_lapply 1%nat (full_t 1%nat a) (full_B 1%nat b))) /\
   (B_lapply_2 a b = flat_t 2%nat (spec_B_lapply 2%nat (full_t 2%nat a) (full_B 2%nat b))) /\
   (B_lapply_3 a b = flat_t 3%nat (spec_B_lapply 3%nat (full_t 3%nat a) (full_B 3%nat b))).
-Proof. intros; exact (conj (B_lapply_1_ok a b) (conj (B_lapply_2_ok a b) (B_lapply_3_ok a b))). Qed.
+Proof. intros a b; exact (conj (B_lapply_1_ok a b) (conj (B_lapply_2_ok a b) (B_lapply_3_ok a b))). Qed.
 Print Assumptions C02_B_lapply.
 
 Theorem C02_B_change_basis : forall a b : nat -> R,
   (B_change_basis_1 a b = flat_B 1%nat (spec_B_change_basis 1%nat (full_B 1%nat a) (full_r 1%nat b))) /\
   (B_change_basis_2 a b = flat_B 2%nat (spec_B_change_basis 2%nat (full_B 2%nat a) (full_r 2%nat b))).
-Proof. intros; exact (conj (B_change_basis_1_ok a b) (B_change_basis_2_ok a b)). Qed.
+Proof. intros a b; exact (conj (B_change_basis_1_ok a b) (B_change_basis_2_ok a b)). Qed.
 Print Assumptions C02_B_change_basis.
 
 Theorem C02_B_fromRotationMatrix : forall a : nat -> R,
   (B_fromRotationMatrix_1 a = flat_B 1%nat (spec_B_fromRotationMatrix 1%nat (full_r 1%nat a))) /\
   (B_fromRotationMatrix_2 a = flat_B 2%nat (spec_B_fromRotationMatrix 2%nat (full_r 2%nat a))) /\
   (B_fromRotationMatrix_3 a = flat_B 3%nat (spec_B_fromRotationMatrix 3%nat (full_r 3%nat a))).
-Proof. intros; exact (conj (B_fromRotationMatrix_1_ok a) (conj (B_fromRotationMatrix_2_ok a) (B_fromRotationMatrix_3_ok a))). Qed.
+Proof. intros a; exact (conj (B_fromRotationMatrix_1_ok a) (conj (B_fromRotationMatrix_2_ok a) (B_fromRotationMatrix_3_ok a))). Qed.
 Print Assumptions C02_B_fromRotationMatrix.
 
 Theorem C02_B_tpld : forall a : nat -> R,
   (B_tpld_1 a = flat_B 1%nat (spec_B_tpld 1%nat (full_t 1%nat a))) /\
   (B_tpld_2 a = flat_B 2%nat (spec_B_tpld 2%nat (full_t 2%nat a))) /\
   (B_tpld_3 a = flat_B 3%nat (spec_B_tpld 3%nat (full_t 3%nat a))).
-Proof. intros; exact (conj (B_tpld_1_ok a) (conj (B_tpld_2_ok a) (B_tpld_3_ok a))). Qed.
+Proof. intros a; exact (conj (B_tpld_1_ok a) (conj (B_tpld_2_ok a) (B_tpld_3_ok a))). Qed.
 Print Assumptions C02_B_tpld.
 
 Theorem C02_B_tprd : forall a : nat -> R,
   (B_tprd_1 a = flat_B 1%nat (spec_B_tprd 1%nat (full_t 1%nat a))) /\
   (B_tprd_2 a = flat_B 2%nat (spec_B_tprd 2%nat (full_t 2%nat a))) /\
   (B_tprd_3 a = flat_B 3%nat (spec_B_tprd 3%nat (full_t 3%nat a))).
-Proof. intros; exact (conj (B_tprd_1_ok a) (conj (B_tprd_2_ok a) (B_tprd_3_ok a))). Qed.
+Proof. intros a; exact (conj (B_tprd_1_ok a) (conj (B_tprd_2_ok a) (B_tprd_3_ok a))). Qed.
 Print Assumptions C02_B_tprd.
 
 Theorem C02_B_Id : (B_Id_1 = flat_B 1%nat (spec_B_Id 1%nat)) /\
@@ -306,94 +306,94 @@ Theorem C02_B_convert : forall a : nat -> R,
   (B_convert_1 a = flat_B 1%nat (spec_B_convert 1%nat (full_C 1%nat a))) /\
   (B_convert_2 a = flat_B 2%nat (spec_B_convert 2%nat (full_C 2%nat a))) /\
   (B_convert_3 a = flat_B 3%nat (spec_B_convert 3%nat (full_C 3%nat a))).
-Proof. intros; exact (conj (B_convert_1_ok a) (conj (B_convert_2_ok a) (B_convert_3_ok a))). Qed.
+Proof. intros a; exact (conj (B_convert_1_ok a) (conj (B_convert_2_ok a) (B_convert_3_ok a))). Qed.
 Print Assumptions C02_B_convert.
 
 Theorem C02_C_apply : forall a b : nat -> R,
   (C_apply_1 a b = flat_s 1%nat (spec_C_apply 1%nat (full_C 1%nat a) (full_t 1%nat b))) /\
   (C_apply_2 a b = flat_s 2%nat (spec_C_apply 2%nat (full_C 2%nat a) (full_t 2%nat b))) /\
   (C_apply_3 a b = flat_s 3%nat (spec_C_apply 3%nat (full_C 3%nat a) (full_t 3%nat b))).
-Proof. intros; exact (conj (C_apply_1_ok a b) (conj (C_apply_2_ok a b) (C_apply_3_ok a b))). Qed.
+Proof. intros a b; exact (conj (C_apply_1_ok a b) (conj (C_apply_2_ok a b) (C_apply_3_ok a b))). Qed.
 Print Assumptions C02_C_apply.
 
 Theorem C02_D_apply : forall a b : nat -> R,
   (D_apply_1 a b = flat_t 1%nat (spec_D_apply 1%nat (full_D 1%nat a) (full_s 1%nat b))) /\
   (D_apply_2 a b = flat_t 2%nat (spec_D_apply 2%nat (full_D 2%nat a) (full_s 2%nat b))) /\
   (D_apply_3 a b = flat_t 3%nat (spec_D_apply 3%nat (full_D 3%nat a) (full_s 3%nat b))).
-Proof. intros; exact (conj (D_apply_1_ok a b) (conj (D_apply_2_ok a b) (D_apply_3_ok a b))). Qed.
+Proof. intros a b; exact (conj (D_apply_1_ok a b) (conj (D_apply_2_ok a b) (D_apply_3_ok a b))). Qed.
 Print Assumptions C02_D_apply.
 
 Theorem C02_AC_mul : forall a b : nat -> R,
   (AC_mul_1 a b = flat_C 1%nat (spec_AC_mul 1%nat (full_A 1%nat a) (full_C 1%nat b))) /\
   (AC_mul_2 a b = flat_C 2%nat (spec_AC_mul 2%nat (full_A 2%nat a) (full_C 2%nat b))) /\
   (AC_mul_3 a b = flat_C 3%nat (spec_AC_mul 3%nat (full_A 3%nat a) (full_C 3%nat b))).
-Proof. intros; exact (conj (AC_mul_1_ok a b) (conj (AC_mul_2_ok a b) (AC_mul_3_ok a b))). Qed.
+Proof. intros a b; exact (conj (AC_mul_1_ok a b) (conj (AC_mul_2_ok a b) (AC_mul_3_ok a b))). Qed.
 Print Assumptions C02_AC_mul.
 
 Theorem C02_CB_mul : forall a b : nat -> R,
   (CB_mul_1 a b = flat_C 1%nat (spec_CB_mul 1%nat (full_C 1%nat a) (full_B 1%nat b))) /\
   (CB_mul_2 a b = flat_C 2%nat (spec_CB_mul 2%nat (full_C 2%nat a) (full_B 2%nat b))) /\
   (CB_mul_3 a b = flat_C 3%nat (spec_CB_mul 3%nat (full_C 3%nat a) (full_B 3%nat b))).
-Proof. intros; exact (conj (CB_mul_1_ok a b) (conj (CB_mul_2_ok a b) (CB_mul_3_ok a b))). Qed.
+Proof. intros a b; exact (conj (CB_mul_1_ok a b) (conj (CB_mul_2_ok a b) (CB_mul_3_ok a b))). Qed.
 Print Assumptions C02_CB_mul.
 
 Theorem C02_CD_mul : forall a b : nat -> R,
   (CD_mul_1 a b = flat_A 1%nat (spec_CD_mul 1%nat (full_C 1%nat a) (full_D 1%nat b))) /\
   (CD_mul_2 a b = flat_A 2%nat (spec_CD_mul 2%nat (full_C 2%nat a) (full_D 2%nat b))) /\
   (CD_mul_3 a b = flat_A 3%nat (spec_CD_mul 3%nat (full_C 3%nat a) (full_D 3%nat b))).
-Proof. intros; exact (conj (CD_mul_1_ok a b) (conj (CD_mul_2_ok a b) (CD_mul_3_ok a b))). Qed.
+Proof. intros a b; exact (conj (CD_mul_1_ok a b) (conj (CD_mul_2_ok a b) (CD_mul_3_ok a b))). Qed.
 Print Assumptions C02_CD_mul.
 
 Theorem C02_DC_mul : forall a b : nat -> R,
   (DC_mul_1 a b = flat_B 1%nat (spec_DC_mul 1%nat (full_D 1%nat a) (full_C 1%nat b))) /\
   (DC_mul_2 a b = flat_B 2%nat (spec_DC_mul 2%nat (full_D 2%nat a) (full_C 2%nat b))).
-Proof. intros; exact (conj (DC_mul_1_ok a b) (DC_mul_2_ok a b)). Qed.
+Proof. intros a b; exact (conj (DC_mul_1_ok a b) (DC_mul_2_ok a b)). Qed.
 Print Assumptions C02_DC_mul.
 
 Theorem C02_DA_mul : forall a b : nat -> R,
   (DA_mul_1 a b = flat_D 1%nat (spec_DA_mul 1%nat (full_D 1%nat a) (full_A 1%nat b))) /\
   (DA_mul_2 a b = flat_D 2%nat (spec_DA_mul 2%nat (full_D 2%nat a) (full_A 2%nat b))) /\
   (DA_mul_3 a b = flat_D 3%nat (spec_DA_mul 3%nat (full_D 3%nat a) (full_A 3%nat b))).
-Proof. intros; exact (conj (DA_mul_1_ok a b) (conj (DA_mul_2_ok a b) (DA_mul_3_ok a b))). Qed.
+Proof. intros a b; exact (conj (DA_mul_1_ok a b) (conj (DA_mul_2_ok a b) (DA_mul_3_ok a b))). Qed.
 Print Assumptions C02_DA_mul.
 
 Theorem C02_BD_mul : forall a b : nat -> R,
   (BD_mul_1 a b = flat_D 1%nat (spec_BD_mul 1%nat (full_B 1%nat a) (full_D 1%nat b))) /\
   (BD_mul_2 a b = flat_D 2%nat (spec_BD_mul 2%nat (full_B 2%nat a) (full_D 2%nat b))).
-Proof. intros; exact (conj (BD_mul_1_ok a b) (BD_mul_2_ok a b)). Qed.
+Proof. intros a b; exact (conj (BD_mul_1_ok a b) (BD_mul_2_ok a b)). Qed.
 Print Assumptions C02_BD_mul.
 
 Theorem C02_C_dCdF : forall a : nat -> R,
   (C_dCdF_1 a = flat_C 1%nat (spec_C_dCdF 1%nat (full_t 1%nat a))) /\
   (C_dCdF_2 a = flat_C 2%nat (spec_C_dCdF 2%nat (full_t 2%nat a))) /\
   (C_dCdF_3 a = flat_C 3%nat (spec_C_dCdF 3%nat (full_t 3%nat a))).
-Proof. intros; exact (conj (C_dCdF_1_ok a) (conj (C_dCdF_2_ok a) (C_dCdF_3_ok a))). Qed.
+Proof. intros a; exact (conj (C_dCdF_1_ok a) (conj (C_dCdF_2_ok a) (C_dCdF_3_ok a))). Qed.
 Print Assumptions C02_C_dCdF.
 
 Theorem C02_C_dBdF : forall a : nat -> R,
   (C_dBdF_1 a = flat_C 1%nat (spec_C_dBdF 1%nat (full_t 1%nat a))) /\
   (C_dBdF_2 a = flat_C 2%nat (spec_C_dBdF 2%nat (full_t 2%nat a))) /\
   (C_dBdF_3 a = flat_C 3%nat (spec_C_dBdF 3%nat (full_t 3%nat a))).
-Proof. intros; exact (conj (C_dBdF_1_ok a) (conj (C_dBdF_2_ok a) (C_dBdF_3_ok a))). Qed.
+Proof. intros a; exact (conj (C_dBdF_1_ok a) (conj (C_dBdF_2_ok a) (C_dBdF_3_ok a))). Qed.
 Print Assumptions C02_C_dBdF.
 
 Theorem C02_C_convertToT2toST2 : forall a : nat -> R,
   (C_convertToT2toST2_1 a = flat_C 1%nat (spec_C_convertToT2toST2 1%nat (full_B 1%nat a))) /\
   (C_convertToT2toST2_2 a = flat_C 2%nat (spec_C_convertToT2toST2 2%nat (full_B 2%nat a))) /\
   (C_convertToT2toST2_3 a = flat_C 3%nat (spec_C_convertToT2toST2 3%nat (full_B 3%nat a))).
-Proof. intros; exact (conj (C_convertToT2toST2_1_ok a) (conj (C_convertToT2toST2_2_ok a) (C_convertToT2toST2_3_ok a))). Qed.
+Proof. intros a; exact (conj (C_convertToT2toST2_1_ok a) (conj (C_convertToT2toST2_2_ok a) (C_convertToT2toST2_3_ok a))). Qed.
 Print Assumptions C02_C_convertToT2toST2.
 
 Theorem C02_D_tpld : forall a : nat -> R,
   (D_tpld_1 a = flat_D 1%nat (spec_D_tpld 1%nat (full_s 1%nat a))) /\
   (D_tpld_2 a = flat_D 2%nat (spec_D_tpld 2%nat (full_s 2%nat a))) /\
   (D_tpld_3 a = flat_D 3%nat (spec_D_tpld 3%nat (full_s 3%nat a))).
-Proof. intros; exact (conj (D_tpld_1_ok a) (conj (D_tpld_2_ok a) (D_tpld_3_ok a))). Qed.
+Proof. intros a; exact (conj (D_tpld_1_ok a) (conj (D_tpld_2_ok a) (D_tpld_3_ok a))). Qed.
 Print Assumptions C02_D_tpld.
 
 Theorem C02_D_tprd : forall a : nat -> R,
   (D_tprd_1 a = flat_D 1%nat (spec_D_tprd 1%nat (full_s 1%nat a))) /\
   (D_tprd_2 a = flat_D 2%nat (spec_D_tprd 2%nat (full_s 2%nat a))) /\
   (D_tprd_3 a = flat_D 3%nat (spec_D_tprd 3%nat (full_s 3%nat a))).
-Proof. intros; exact (conj (D_tprd_1_ok a) (conj (D_tprd_2_ok a) (D_tprd_3_ok a))). Qed.
+Proof. intros a; exact (conj (D_tprd_1_ok a) (conj (D_tprd_2_ok a) (D_tprd_3_ok a))). Qed.
 Print Assumptions C02_D_tprd.
